@@ -5350,59 +5350,63 @@ namespace awkward {
         + FILENAME(__LINE__));
     }
 
+    if (!iscontiguous()) {
+      return contiguous().is_subrange_equal(starts, stops);
+    }
+
     bool is_equal = false;
 
     switch (dtype_) {
     case util::dtype::boolean:
-      is_equal = subranges_equal<bool>(reinterpret_cast<bool*>(ptr_.get()),
+      is_equal = subranges_equal<bool>(reinterpret_cast<bool*>(data()),
                                        length(),
                                        starts,
                                        stops);
       break;
     case util::dtype::int8:
-      is_equal = subranges_equal<int8_t>(reinterpret_cast<int8_t*>(ptr_.get()),
+      is_equal = subranges_equal<int8_t>(reinterpret_cast<int8_t*>(data()),
                                          length(),
                                          starts,
                                          stops);
       break;
     case util::dtype::int16:
-      is_equal = subranges_equal<int16_t>(reinterpret_cast<int16_t*>(ptr_.get()),
+      is_equal = subranges_equal<int16_t>(reinterpret_cast<int16_t*>(data()),
                                           length(),
                                           starts,
                                           stops);
       break;
     case util::dtype::int32:
-      is_equal = subranges_equal<int32_t>(reinterpret_cast<int32_t*>(ptr_.get()),
+      is_equal = subranges_equal<int32_t>(reinterpret_cast<int32_t*>(data()),
                                           length(),
                                           starts,
                                           stops);
       break;
     case util::dtype::int64:
-      is_equal = subranges_equal<int64_t>(reinterpret_cast<int64_t*>(ptr_.get()),
+      is_equal = subranges_equal<int64_t>(reinterpret_cast<int64_t*>(data()),
                                           length(),
                                           starts,
                                           stops);
       break;
     case util::dtype::uint8:
-      is_equal = subranges_equal<uint8_t>(reinterpret_cast<uint8_t*>(ptr_.get()),
+      is_equal = subranges_equal<uint8_t>(reinterpret_cast<uint8_t*>(data()),
                                           length(),
                                           starts,
                                           stops);
       break;
     case util::dtype::uint16:
-      is_equal = subranges_equal<uint16_t>(reinterpret_cast<uint16_t*>(ptr_.get()),
+      is_equal = subranges_equal<uint16_t>(reinterpret_cast<uint16_t*>(data()),
                                            length(),
                                            starts,
                                            stops);
       break;
     case util::dtype::uint32:
-      is_equal = subranges_equal<uint32_t>(reinterpret_cast<uint32_t*>(ptr_.get()),
+      is_equal = subranges_equal<uint32_t>(reinterpret_cast<uint32_t*>(data()),
                                            length(),
                                            starts,
                                            stops);
       break;
     case util::dtype::uint64:
-      is_equal = subranges_equal<uint64_t>(reinterpret_cast<uint64_t*>(ptr_.get()),
+      is_equal = subranges_equal<uint64_t>(reinterpret_cast<uint64_t*>(data()),
                                            length(),
                                            starts,
                                            stops);
@@ -5412,13 +5416,13 @@ namespace awkward {
         std::string("FIXME: is_subrange_equal for float16 not implemented")
         + FILENAME(__LINE__));
     case util::dtype::float32:
-      is_equal = subranges_equal<float>(reinterpret_cast<float*>(ptr_.get()),
+      is_equal = subranges_equal<float>(reinterpret_cast<float*>(data()),
                                         length(),
                                         starts,
                                         stops);
       break;
     case util::dtype::float64:
-      is_equal = subranges_equal<double>(reinterpret_cast<double*>(ptr_.get()),
+      is_equal = subranges_equal<double>(reinterpret_cast<double*>(data()),
                                          length(),
                                          starts,
                                          stops);
